@@ -224,3 +224,181 @@ func H_C07_tag_partition() {
 	}
 	vAssert("at-most-one-class", n <= 1)
 }
+
+type ZKindLists struct {
+	I8  []int8
+	I16 []int16
+	I32 []int32
+	I64 []int64
+	I   []int
+	U16 []uint16
+	U32 []uint32
+	U64 []uint64
+	U   []uint
+}
+
+type ZKindMaps struct {
+	M8   map[int8]int8
+	M16  map[int16]int16
+	M32  map[int32]int32
+	M64  map[int64]int64
+	MI   map[int]int
+	MU8  map[uint8]uint8
+	MU16 map[uint16]uint16
+	MU32 map[uint32]uint32
+	MU64 map[uint64]uint64
+	MU   map[uint]uint
+}
+
+// H_C07_all_kinds_in_containers: every Go integer kind as a list element and as a map key and value (the key and
+// the value are the same arbitrary number): exactly the same number comes back, or the encode call fails.
+func H_C07_all_kinds_in_containers() {
+	kind := vChoice("kind", 10)
+	if vChoice("container", 2) == 0 {
+		v := &ZKindLists{}
+		switch kind {
+		case 0:
+			v.I8 = []int8{1, vInt8("x")}
+		case 1:
+			v.I16 = []int16{1, vInt16("x")}
+		case 2:
+			v.I32 = []int32{1, vInt32("x")}
+		case 3:
+			v.I64 = []int64{1, vInt64("x")}
+		case 4:
+			v.I = []int{1, vInt("x")}
+		case 5:
+			v.U16 = []uint16{1, vUint16("x")}
+		case 6:
+			v.U32 = []uint32{1, vUint32("x")}
+		case 7:
+			v.U64 = []uint64{1, vUint64("x")}
+		case 8:
+			v.U = []uint{1, uint(vUint64("x"))}
+		default:
+			vAssume(false) // []uint8 is binary data (C09)
+		}
+		tm, nm := vExtract(v)
+		bs, err := ToBytes(v, nm)
+		if err != nil {
+			vAssert("refused-only-when-too-wide", kind == 4 && (v.I[1] < -2147483648 || v.I[1] > 2147483647))
+			return
+		}
+		out, err := ToObject(bs, tm)
+		vAssert("decode-noerr", err == nil)
+		g, ok := out.(*ZKindLists)
+		vAssert("type", ok && g != nil)
+		same := len(g.I8) == len(v.I8) && len(g.I16) == len(v.I16) && len(g.I32) == len(v.I32) && len(g.I64) == len(v.I64) && len(g.I) == len(v.I) &&
+			len(g.U16) == len(v.U16) && len(g.U32) == len(v.U32) && len(g.U64) == len(v.U64) && len(g.U) == len(v.U)
+		vAssert("lengths", same)
+		switch kind {
+		case 0:
+			vAssert("exact", g.I8[1] == v.I8[1] && g.I8[0] == 1)
+		case 1:
+			vAssert("exact", g.I16[1] == v.I16[1] && g.I16[0] == 1)
+		case 2:
+			vAssert("exact", g.I32[1] == v.I32[1] && g.I32[0] == 1)
+		case 3:
+			vAssert("exact", g.I64[1] == v.I64[1] && g.I64[0] == 1)
+		case 4:
+			vAssert("exact", g.I[1] == v.I[1] && g.I[0] == 1)
+		case 5:
+			vAssert("exact", g.U16[1] == v.U16[1] && g.U16[0] == 1)
+		case 6:
+			vAssert("exact", g.U32[1] == v.U32[1] && g.U32[0] == 1)
+		case 7:
+			vAssert("exact", g.U64[1] == v.U64[1] && g.U64[0] == 1)
+		case 8:
+			vAssert("exact", g.U[1] == v.U[1] && g.U[0] == 1)
+		}
+		return
+	}
+	v := &ZKindMaps{}
+	var xi int
+	switch kind {
+	case 0:
+		x := vInt8("x")
+		v.M8 = map[int8]int8{x: x}
+	case 1:
+		x := vInt16("x")
+		v.M16 = map[int16]int16{x: x}
+	case 2:
+		x := vInt32("x")
+		v.M32 = map[int32]int32{x: x}
+	case 3:
+		x := vInt64("x")
+		v.M64 = map[int64]int64{x: x}
+	case 4:
+		xi = vInt("x")
+		v.MI = map[int]int{xi: xi}
+	case 5:
+		x := vUint8("x")
+		v.MU8 = map[uint8]uint8{x: x}
+	case 6:
+		x := vUint16("x")
+		v.MU16 = map[uint16]uint16{x: x}
+	case 7:
+		x := vUint32("x")
+		v.MU32 = map[uint32]uint32{x: x}
+	case 8:
+		x := vUint64("x")
+		v.MU64 = map[uint64]uint64{x: x}
+	case 9:
+		x := uint(vUint64("x"))
+		v.MU = map[uint]uint{x: x}
+	}
+	tm, nm := vExtract(v)
+	vMapOrderFixed(true)
+	bs, err := ToBytes(v, nm)
+	if err != nil {
+		vAssert("refused-only-when-too-wide", kind == 4 && (xi < -2147483648 || xi > 2147483647))
+		return
+	}
+	out, err := ToObject(bs, tm)
+	vAssert("decode-noerr", err == nil)
+	g, ok := out.(*ZKindMaps)
+	vAssert("type", ok && g != nil)
+	okAll := true
+	for k, x := range v.M8 {
+		y, has := g.M8[k]
+		okAll = vAnd(okAll, vAnd(has, y == x))
+	}
+	for k, x := range v.M16 {
+		y, has := g.M16[k]
+		okAll = vAnd(okAll, vAnd(has, y == x))
+	}
+	for k, x := range v.M32 {
+		y, has := g.M32[k]
+		okAll = vAnd(okAll, vAnd(has, y == x))
+	}
+	for k, x := range v.M64 {
+		y, has := g.M64[k]
+		okAll = vAnd(okAll, vAnd(has, y == x))
+	}
+	for k, x := range v.MI {
+		y, has := g.MI[k]
+		okAll = vAnd(okAll, vAnd(has, y == x))
+	}
+	for k, x := range v.MU8 {
+		y, has := g.MU8[k]
+		okAll = vAnd(okAll, vAnd(has, y == x))
+	}
+	for k, x := range v.MU16 {
+		y, has := g.MU16[k]
+		okAll = vAnd(okAll, vAnd(has, y == x))
+	}
+	for k, x := range v.MU32 {
+		y, has := g.MU32[k]
+		okAll = vAnd(okAll, vAnd(has, y == x))
+	}
+	for k, x := range v.MU64 {
+		y, has := g.MU64[k]
+		okAll = vAnd(okAll, vAnd(has, y == x))
+	}
+	for k, x := range v.MU {
+		y, has := g.MU[k]
+		okAll = vAnd(okAll, vAnd(has, y == x))
+	}
+	vAssert("exact-entries", okAll)
+	vAssert("sizes", len(g.M8)+len(g.M16)+len(g.M32)+len(g.M64)+len(g.MI)+len(g.MU8)+len(g.MU16)+len(g.MU32)+len(g.MU64)+len(g.MU) == 1)
+}
